@@ -1,6 +1,7 @@
 package main
 
 import (
+	osexec "os/exec"
 	"bufio"
 	"encoding/json"
 	"fmt"
@@ -433,6 +434,40 @@ func runCheck(repo, verif, prop, tier string, update bool) int {
 		sort.Strings(updLines)
 		os.WriteFile(filepath.Join(verif, "claimed", prop+".txt"), []byte("# obligations claimed for "+prop+" (generated with --update-claimed on the reference tree, then reviewed)\n"+strings.Join(updLines, "\n")+"\n"), 0o644)
 	}
+	// thorough tier: besides longer limits and second-solver agreement, re-validate the
+	// checker itself against the must-fail corpus of this property (each entry is a
+	// property-breaking edit with the obligation that has to fail); a survivor means the
+	// check has lost strength and is printed, it is not a violation of the property
+	thoroughExtras = nil
+	if thorough && !update {
+		if out, err := osexec.Command(os.Args[0], "selftest", "--property", prop, "--repo", repo, "--verif", verif).CombinedOutput(); err == nil || len(out) > 0 {
+			killed, total := 0, 0
+			var survivors, errs []string
+			for _, l := range strings.Split(string(out), "\n") {
+				switch {
+				case strings.HasPrefix(l, "KILLED"):
+					killed++
+					total++
+				case strings.HasPrefix(l, "SURVIVED"):
+					total++
+					if f := strings.Fields(l); len(f) > 1 {
+						survivors = append(survivors, f[1])
+					}
+				case strings.HasPrefix(l, "ERROR"):
+					total++
+					if f := strings.Fields(l); len(f) > 1 {
+						errs = append(errs, f[1])
+					}
+				}
+			}
+			thoroughExtras = map[string]interface{}{"must_fail_corpus": map[string]interface{}{"total": total, "killed": killed, "survivors": survivors, "not_applicable_on_this_tree": errs,
+				"meaning": "property-breaking edits of /verif/mutants applied in memory, each expected to fail a named obligation"}}
+			for _, sv := range survivors {
+				fmt.Printf("SELFTEST-SURVIVOR property=%s mutant=%s (the check no longer detects a change it used to detect)\n", prop, sv)
+			}
+			fmt.Printf("govc: must-fail corpus for %s: %d/%d killed\n", prop, killed, total)
+		}
+	}
 	wall := time.Since(start).Seconds()
 	reports = append(reports, effReports...)
 	writeEvidence(verif, prop, tier, seed, eng, fvs, reports, nclaimed, discharged, undecided, known, len(violations), perSolver, solverMs, wall, loadS, genS)
@@ -621,6 +656,9 @@ func writeEvidence(verif, prop, tier string, seed int, eng *Engine, fvs []*FuncV
 			}
 		}
 	}
+	for k, v := range thoroughExtras {
+		cov[k] = v
+	}
 	ev := map[string]interface{}{
 		"property_id": prop, "tier": tier, "seed": seed, "level": "proof", "coverage": cov,
 		"assumptions": assumptions, "wall_s": wall, "violations": violations,
@@ -629,6 +667,8 @@ func writeEvidence(verif, prop, tier string, seed int, eng *Engine, fvs []*FuncV
 	data, _ := json.MarshalIndent(ev, "", " ")
 	os.WriteFile(filepath.Join(verif, "evidence", prop+".json"), data, 0o644)
 }
+
+var thoroughExtras map[string]interface{}
 
 var effectProps = map[string]bool{"C08": true, "C20": true, "C05": true, "C04": true}
 
